@@ -5,6 +5,7 @@ import (
 	"time"
 
 	regexp2 "github.com/dlclark/regexp2/v2"
+	"github.com/dlclark/regexp2/v2/syntax"
 
 	"verif/internal/ast"
 	"verif/internal/canon"
@@ -76,7 +77,12 @@ func CheckMirror(c Case) error {
 	if err != nil {
 		return nil
 	}
+	// The left-to-right side is the reference of this leg. Its one recorded defect (KNOWN_FINDINGS
+	// c05-/c01-auto-atomic-nonboundary: \D+\B made atomic) must not leak into the reference, so that
+	// rule is switched off while the mirrored pattern is compiled; right-to-left compilation never uses it.
+	syntax.VerifSetNonboundaryAtomicRule(false)
 	reL, err := regexp2.Compile(revText, Options(lc))
+	syntax.VerifSetNonboundaryAtomicRule(true)
 	if err != nil {
 		return nil
 	}
